@@ -165,6 +165,9 @@ type World struct {
 	Data    map[string]interface{} // scratch for scenarios/monitors
 	closed  bool
 	Free    bool // free-running (socket tier)
+	// Unsent lists rids that were reset from sent to unsent in this execution.
+	Unsent    map[string]bool
+	prevState map[string]int
 
 	snapT     int
 	connSnap  []server.VerifConnSnap
@@ -423,7 +426,28 @@ func (w *World) Time() int { return w.time }
 func (w *World) Fail(prop, kind, format string, a ...interface{}) {
 	w.mu.Lock()
 	defer w.mu.Unlock()
-	w.Viol = append(w.Viol, Violation{Prop: prop, Kind: kind, Msg: fmt.Sprintf(format, a...), At: w.time})
+	msg := fmt.Sprintf(format, a...)
+	// Known-finding context: the violation concerns a resource for which the
+	// service has sent a delete event earlier in this execution.
+	tagged := false
+	for name := range w.Svc.Deleted {
+		if strings.Contains(msg, name) {
+			kind = "after-delete:" + kind
+			tagged = true
+			break
+		}
+	}
+	// ... or a resource that the gateway reset from sent to unsent (its last
+	// sent parent went away while a loading parent still references it)
+	if !tagged {
+		for rid := range w.Unsent {
+			if strings.Contains(msg, rid) {
+				kind = "after-unsend:" + kind
+				break
+			}
+		}
+	}
+	w.Viol = append(w.Viol, Violation{Prop: prop, Kind: kind, Msg: msg, At: w.time})
 }
 
 // flushFrames feeds captured frames to the reference clients.
@@ -758,9 +782,33 @@ func (w *World) Do(a Action) {
 	}
 	w.pollHTTP()
 	w.flushFrames()
+	if len(w.mons) > 0 {
+		w.trackUnsend()
+	}
 	for _, m := range w.mons {
 		m.Step(w, a.Name)
 	}
+}
+
+// trackUnsend records the rids whose subscription went from sent back to
+// ready while staying referenced (Subscription.Unsend).
+func (w *World) trackUnsend() {
+	cur := map[string]int{}
+	for _, cs := range w.ConnSnaps() {
+		for _, s := range cs.Subs {
+			k := cs.CID + " " + s.RID
+			cur[k] = s.State
+			if w.prevState[k] == 5 && s.State == 3 && s.Err == "" {
+				w.mu.Lock()
+				if w.Unsent == nil {
+					w.Unsent = map[string]bool{}
+				}
+				w.Unsent[s.RID] = true
+				w.mu.Unlock()
+			}
+		}
+	}
+	w.prevState = cur
 }
 
 // End runs the end-of-run monitors (call only at full quiescence).
